@@ -47,6 +47,61 @@ impl Bits for Yld {
     }
 }
 
+/// Control bits of the calling thread's SSE/AVX floating-point environment (MXCSR without the sticky exception
+/// flags): rounding mode, flush-to-zero, denormals-are-zero, exception masks. This is per-thread state that outlives a
+/// call; a transform that leaves it changed makes every LATER call on that thread compute something else.
+#[cfg(target_arch = "x86_64")]
+pub fn fp_control() -> u32 {
+    let mut v: u32 = 0;
+    unsafe {
+        std::arch::asm!("stmxcsr [{}]", in(reg) &mut v, options(nostack));
+    }
+    v & !0x3f
+}
+#[cfg(target_arch = "x86_64")]
+pub fn fp_control_restore(v: u32) {
+    let cur = {
+        let mut c: u32 = 0;
+        unsafe {
+            std::arch::asm!("stmxcsr [{}]", in(reg) &mut c, options(nostack));
+        }
+        c
+    };
+    let newv: u32 = (cur & 0x3f) | v;
+    unsafe {
+        std::arch::asm!("ldmxcsr [{}]", in(reg) &newv, options(nostack));
+    }
+}
+#[cfg(not(target_arch = "x86_64"))]
+pub fn fp_control() -> u32 {
+    0
+}
+#[cfg(not(target_arch = "x86_64"))]
+pub fn fp_control_restore(_v: u32) {}
+
+thread_local! {
+    /// first floating-point-environment change observed on this thread: (before, after)
+    static FPENV_CHANGE: std::cell::Cell<Option<(u32, u32)>> = std::cell::Cell::new(None);
+}
+/// run `f`, compare the thread's floating-point control state before and after, restore it if it changed
+fn fpenv_guard<R>(f: impl FnOnce() -> R) -> R {
+    let before = fp_control();
+    let r = f();
+    let after = fp_control();
+    if after != before {
+        FPENV_CHANGE.with(|c| {
+            if c.get().is_none() {
+                c.set(Some((before, after)));
+            }
+        });
+        fp_control_restore(before);
+    }
+    r
+}
+fn fpenv_take() -> Option<(u32, u32)> {
+    FPENV_CHANGE.with(|c| c.take())
+}
+
 fn mk_input<T: Bits>(n: usize, k: usize, salt: u64) -> Vec<Complex<T>> {
     let mut r = crate::util::Rng::new(0x5EED ^ salt ^ (n as u64) << 9);
     (0..n * k).map(|_| Complex::new(T::from64(r.sym()), T::from64(r.sym()))).collect()
@@ -61,12 +116,12 @@ fn do_call<T: Bits>(fft: &dyn Fft<T>, e: Entry, data: &[Complex<T>]) -> (Vec<(u6
     let mut input = data.to_vec();
     let mut out = vec![z; data.len()];
     let mut scr = vec![z; e.scratch_len(fft)];
-    match e {
+    fpenv_guard(|| match e {
         Entry::Process => fft.process(&mut input),
         Entry::InPlace => fft.process_with_scratch(&mut input, &mut scr),
         Entry::OutOfPlace => fft.process_outofplace_with_scratch(&mut input, &mut out, &mut scr),
         Entry::Immut => fft.process_immutable_with_scratch(&input, &mut out, &mut scr),
-    }
+    });
     if e.has_output() {
         (bits(&out), bits(&input))
     } else {
@@ -122,6 +177,9 @@ fn explore_instance<T: Bits>(name: &str, build: &(dyn Fn() -> Arc<dyn Fft<T>> + 
                 Box::new(move || {
                     let x = x;
                     let r = do_call(sh.0.as_ref(), e, &x.0);
+                    if let Some((b, a)) = fpenv_take() {
+                        panic!("the call left the calling thread's floating-point control state changed (MXCSR control bits {:#06x} -> {:#06x}: rounding mode / flush-to-zero / denormals-are-zero): later calls on this thread no longer compute what an isolated call computes", b, a);
+                    }
                     res.lock().unwrap()[i] = Some(r);
                 }) as Box<dyn FnOnce() + Send>
             })
@@ -261,11 +319,13 @@ fn history_check<T: Real>(pk: PK, n: usize, d: FftDirection, rep: &mut Report) {
         if bad_first {
             for (ei, e) in Entry::ALL.iter().enumerate() {
                 let mut data = bad.clone();
-                let _ = std::panic::catch_unwind(std::panic::AssertUnwindSafe(|| match e {
-                    Entry::Process => fft.process(&mut data),
-                    Entry::InPlace => fft.process_with_scratch(&mut data, &mut scr[ei]),
-                    Entry::OutOfPlace => fft.process_outofplace_with_scratch(&mut data, &mut outbuf[..n], &mut scr[ei]),
-                    Entry::Immut => fft.process_immutable_with_scratch(&data, &mut outbuf[..n], &mut scr[ei]),
+                let _ = std::panic::catch_unwind(std::panic::AssertUnwindSafe(|| {
+                    fpenv_guard(|| match e {
+                        Entry::Process => fft.process(&mut data),
+                        Entry::InPlace => fft.process_with_scratch(&mut data, &mut scr[ei]),
+                        Entry::OutOfPlace => fft.process_outofplace_with_scratch(&mut data, &mut outbuf[..n], &mut scr[ei]),
+                        Entry::Immut => fft.process_immutable_with_scratch(&data, &mut outbuf[..n], &mut scr[ei]),
+                    })
                 }));
             }
         }
@@ -273,13 +333,23 @@ fn history_check<T: Real>(pk: PK, n: usize, d: FftDirection, rep: &mut Report) {
             let (e, salt, k) = letters[li];
             let ei = Entry::ALL.iter().position(|x| *x == e).unwrap();
             let mut data = inputs[li].clone();
-            let res = std::panic::catch_unwind(std::panic::AssertUnwindSafe(|| match e {
-                Entry::Process => fft.process(&mut data),
-                Entry::InPlace => fft.process_with_scratch(&mut data, &mut scr[ei]),
-                Entry::OutOfPlace => fft.process_outofplace_with_scratch(&mut data, &mut outbuf[..k * n], &mut scr[ei]),
-                Entry::Immut => fft.process_immutable_with_scratch(&data, &mut outbuf[..k * n], &mut scr[ei]),
+            let res = std::panic::catch_unwind(std::panic::AssertUnwindSafe(|| {
+                fpenv_guard(|| match e {
+                    Entry::Process => fft.process(&mut data),
+                    Entry::InPlace => fft.process_with_scratch(&mut data, &mut scr[ei]),
+                    Entry::OutOfPlace => fft.process_outofplace_with_scratch(&mut data, &mut outbuf[..k * n], &mut scr[ei]),
+                    Entry::Immut => fft.process_immutable_with_scratch(&data, &mut outbuf[..k * n], &mut scr[ei]),
+                })
             }));
             rep.transitions += 1;
+            if let Some((b, a)) = fpenv_take() {
+                let sq: Vec<String> = seq.iter().map(|&x| format!("{}:{}:k{}", letters[x].0.name(), letters[x].1, letters[x].2)).collect();
+                rep.violate(
+                    format!("C11|part=history|pk={}|T={}|dir={}|n={}|seq={}|pos={}|fpenv", pk.name(), T::NAME, dir_name(d), n, sq.join(","), pos),
+                    format!("call {} of the history ({} k={}) left the calling thread's floating-point control state changed (MXCSR control bits {:#06x} -> {:#06x}: rounding mode / flush-to-zero / denormals-are-zero); every later call on this thread then computes something else than an isolated call", pos, e.name(), k, b, a),
+                    Json::Null,
+                );
+            }
             let got: &[C<T>] = if e.has_output() { &outbuf[..k * n] } else { &data };
             let ok = res.is_ok() && same_bits(got, &expected[li]);
             if !ok {
